@@ -296,6 +296,12 @@ theorem invC_step {P : Proto} {limit pre I : Nat} {c : Cfg} (h : InvC P limit pr
       rcases old.shape with e | e | e | ⟨v, e⟩ <;> rw [hpc] at e <;> cases e
     · rename_i k hpc
       rcases old.shape with e | e | e | ⟨v, e⟩ <;> rw [hpc] at e <;> cases e
+  · rename_i hops
+    have := old.only .touch (by rw [hops]; exact List.mem_cons_self)
+    cases this
+  · rename_i hops
+    have := old.only .mrevoke (by rw [hops]; exact List.mem_cons_self)
+    cases this
   · rename_i fa _ hops
     have := old.only (.revoke fa) (by rw [hops]; exact List.mem_cons_self)
     cases this
